@@ -32,7 +32,8 @@ LEVEL = "model_checking"
 KINDS = ["sb21", "sb20", "advp", "sb21cfg", "mbi_class", "mbi_cfg", "otfad", "iee", "bee", "hexstr", "hab",
          "sb21cfg_same", "mbi_cfg_same",  # *_same: one configuration dictionary object reused for every build of that kind
          "hab_same",                       # every HAB build of the history in the same workspace folder (rebuild)
-         "mbi_cfg_sameobj"]                # one MBI builder object re-configured (load_from_config) for every build of that kind
+         "mbi_cfg_sameobj",                # one MBI builder object re-configured (load_from_config) for every build of that kind
+         "sb1", "bootimgrt", "dice"]       # SB 1.x DEK/MAC, legacy RT boot image AEAD nonce, DICE attestation challenge
 CHILD = os.path.join(os.path.dirname(os.path.abspath(__file__)), "c17_child.py")
 
 
@@ -145,13 +146,13 @@ def w_history(hist: Any) -> dict:
     return res
 
 
-CORE_KINDS = ["sb21", "sb20", "advp", "mbi_class", "mbi_cfg", "otfad", "iee", "bee", "hexstr"]
+CORE_KINDS = ["sb21", "sb20", "advp", "mbi_class", "mbi_cfg", "otfad", "iee", "bee", "hexstr", "sb1", "bootimgrt", "dice"]
 
 
 def histories(tier: str) -> list:
-    """quick: every single construction, every ordered pair over the nine class-constructed kinds, and for the four
+    """quick: every single construction, every ordered pair over the twelve class-constructed kinds, and for the four
     config/CLI-driven kinds (slow: 1-4 s each) the pairs with themselves, with their sibling and with three core kinds;
-    thorough: all sequences up to length 2 over all 15 kinds and up to length 3 over all but `hab`."""
+    thorough: all sequences up to length 2 over all 18 kinds and up to length 3 over all but `hab`."""
     if tier == "quick":
         out = [[k] for k in KINDS]
         out += [list(t) for t in itertools.product(CORE_KINDS, repeat=2)]
@@ -204,7 +205,7 @@ def run(ctx: core.Ctx) -> None:
     ctx.cov["traces_validated_against_impl"] = len(hs)
     ctx.cov["history_length_bound"] = 2 if ctx.tier == "quick" else 3
     ctx.cov["kinds"] = KINDS
-    ctx.rule = ("all sequences with repetition of artifact constructions (15 kinds: SB2.0, SB2.1 by class and by config, advanced "
+    ctx.rule = ("all sequences with repetition of artifact constructions (18 kinds: SB1.x, SB2.0, SB2.1 by class and by config, advanced "
                 "params, encrypted MBI by class and by config, OTFAD, IEE, BEE blobs, load_hex_string(None), HAB encrypted via "
                 "the CLI) up to the length bound, each in a fresh interpreter under a counting RNG installed before import, run "
                 "under two generator seeds; distinct = distinct histories; every history is an implementation run")
